@@ -1,0 +1,94 @@
+//! Verification hooks. Compiled only with `--cfg compio_verif`; every hook is a
+//! no-op until a harness calls [`start`] on the current thread.
+//!
+//! The log records what the would-block shim of the native-tls back-end
+//! (`compat/common.rs`, `compat/native.rs`) does: the engine's I/O callbacks,
+//! their results and the shim flags, and the results of the poll entry points.
+
+use std::cell::{Cell, RefCell};
+
+/// One recorded event.
+#[derive(Clone, Copy, Debug)]
+pub struct Event {
+    /// The tag the harness had set when the event was emitted (see [`set_tag`]).
+    pub tag: u64,
+    /// Event kind, one of the constants of this module.
+    pub kind: u32,
+    /// First argument.
+    pub a: u64,
+    /// Second argument.
+    pub b: u64,
+    /// Third argument.
+    pub c: u64,
+}
+
+/// The engine entered a callback of `AllowStd` (a = [`CB_READ`] / [`CB_WRITE`] /
+/// [`CB_FLUSH`], b = buffer length).
+pub const CB_ENTER: u32 = 1;
+/// The callback returned (a = result kind: 0 ok, 1 `WouldBlock`, 2 other error;
+/// b = byte count; c = `written` + 2 * `handshaken` after the call).
+pub const CB_EXIT: u32 = 2;
+/// `AllowStd::finish_handshake`.
+pub const FINISH_HANDSHAKE: u32 = 3;
+/// First handshake call returned (a = 0 done, 1 mid-handshake, 2 failure).
+pub const HS_START: u32 = 4;
+/// `MidHandshake::poll` returned (a = 0 ready, 1 pending, 2 failure).
+pub const HS_MID: u32 = 5;
+/// `TlsStream::with_context` entered (poll_read / poll_write / poll_flush /
+/// poll_close of the native-tls stream).
+pub const TOP_ENTER: u32 = 6;
+/// `TlsStream::with_context` returned (a = 0 ready ok, 1 pending, 2 error; b =
+/// the engine's own result: 0 ok, 1 `WouldBlock`, 2 other error).
+pub const TOP_EXIT: u32 = 7;
+
+/// Callback kind: `Read::read`.
+pub const CB_READ: u64 = 1;
+/// Callback kind: `Write::write`.
+pub const CB_WRITE: u64 = 2;
+/// Callback kind: `Write::flush`.
+pub const CB_FLUSH: u64 = 3;
+
+thread_local! {
+    static LOG: RefCell<Option<Vec<Event>>> = const { RefCell::new(None) };
+    static TAG: Cell<u64> = const { Cell::new(0) };
+}
+
+/// Start recording on this thread (drops an earlier log).
+pub fn start() {
+    LOG.with(|l| *l.borrow_mut() = Some(Vec::new()));
+}
+
+/// Stop recording on this thread and return the log.
+pub fn take() -> Vec<Event> {
+    LOG.with(|l| l.borrow_mut().take()).unwrap_or_default()
+}
+
+/// Set the tag attached to the following events of this thread; returns the
+/// previous one.
+pub fn set_tag(tag: u64) -> u64 {
+    TAG.with(|t| t.replace(tag))
+}
+
+/// Append an event to the log of this thread (harnesses add their own events,
+/// kinds 100 and above, to get one chronological log).
+pub fn emit(kind: u32, a: u64, b: u64, c: u64) {
+    LOG.with(|l| {
+        if let Some(v) = l.borrow_mut().as_mut() {
+            v.push(Event {
+                tag: TAG.with(|t| t.get()),
+                kind,
+                a,
+                b,
+                c,
+            });
+        }
+    });
+}
+
+pub(crate) fn io_result<T>(r: &std::io::Result<T>, n: impl FnOnce(&T) -> u64) -> (u64, u64) {
+    match r {
+        Ok(v) => (0, n(v)),
+        Err(e) if e.kind() == std::io::ErrorKind::WouldBlock => (1, 0),
+        Err(_) => (2, 0),
+    }
+}
